@@ -311,6 +311,11 @@ class LinearPaths:
     merged.set(jntag, None)
     merged_vlevel = merged.vlevel
     merged.vlevel = 0
+    if self._version == "gfa2" and "LN" in merged.tagnames:
+      # (a GFA2 segment can have a tag with the name LN, which then is not
+      # the slen field: the length of the merged segment is computed in slen;
+      # the tag, which says the length of the first member, is not kept)
+      merged.delete("LN")
     total_cut = 0
     a = segpath[0]
     first_reversed = (a.end_type == "L")
